@@ -71,6 +71,7 @@ pub struct Env {
     pub choices: Choices,
     // registry: per serial 0 = never, 1 = live, 2 = dropped
     pub reg: Vec<u8>,
+    pub live_elems: usize,
     pub errors: Vec<String>,
     // allocator
     pub blocks: Vec<Block>,
@@ -97,6 +98,7 @@ impl Env {
             counts: [0; NCLASS],
             choices: Choices { enabled: false, prefix: Vec::new(), log: Vec::new() },
             reg: Vec::new(),
+            live_elems: 0,
             errors: Vec::new(),
             blocks: Vec::new(),
             alloc_calls: 0,
@@ -158,6 +160,7 @@ pub fn reset() {
         e.counts = [0; NCLASS];
         e.choices = Choices::default();
         e.reg.clear();
+        e.live_elems = 0;
         e.errors.clear();
         e.alloc_calls = 0;
         e.dealloc_calls = 0;
@@ -256,13 +259,17 @@ pub fn take_errors() -> Vec<String> {
 pub fn reg_new() -> u32 {
     with(|e| {
         e.reg.push(1);
+        e.live_elems += 1;
         (e.reg.len() - 1) as u32
     })
 }
 
 pub fn reg_drop(serial: u32) {
     with(|e| match e.reg.get_mut(serial as usize) {
-        Some(s) if *s == 1 => *s = 2,
+        Some(s) if *s == 1 => {
+            *s = 2;
+            e.live_elems -= 1;
+        }
         Some(s) => {
             let st = *s;
             if e.errors.len() < 16 {
@@ -284,7 +291,7 @@ pub fn reg_is_live(serial: u32) -> bool {
 
 /// Number of live (constructed, not yet dropped) tracked elements.
 pub fn reg_live_count() -> usize {
-    with(|e| e.reg.iter().filter(|&&s| s == 1).count())
+    with(|e| e.live_elems)
 }
 
 pub fn reg_live_list() -> Vec<u32> {
@@ -374,7 +381,7 @@ unsafe impl Allocator for CheckAlloc {
         with(|e| {
             e.dealloc_calls += 1;
             let p = ptr.as_ptr();
-            match e.blocks.iter_mut().find(|b| b.user == p && b.live) {
+            match e.blocks.iter_mut().rev().find(|b| b.user == p && b.live) {
                 Some(b) => {
                     if b.size != layout.size() || b.align != layout.align() {
                         let m = format!(
@@ -432,8 +439,22 @@ fn check_canary(b: &Block) -> Option<String> {
 
 /// Check red zones of live blocks and poison of quarantined blocks.
 pub fn alloc_check() -> Result<(), String> {
+    alloc_check_from(0)
+}
+
+/// Number of blocks ever allocated in this run (index for `alloc_check_from`).
+pub fn block_count() -> usize {
+    with(|e| e.blocks.len())
+}
+
+pub fn live_block_count() -> usize {
+    with(|e| e.blocks.iter().filter(|b| b.live).count())
+}
+
+/// Like `alloc_check` but only for blocks allocated at index >= `from`.
+pub fn alloc_check_from(from: usize) -> Result<(), String> {
     with(|e| {
-        for b in &e.blocks {
+        for b in e.blocks.iter().skip(from) {
             if let Some(m) = check_canary(b) {
                 return Err(m);
             }
